@@ -119,7 +119,7 @@ def nlp_diff(p):
         if bad:
             return dict(status="confirmed", failing_input=out["instance"], problems=[dict(what="solver parameter values differ from the user's values", entries=bad[:6], count=len(bad), checked=n)], **out)
         return dict(status="not-reproduced", detail="all %d solver parameters carry the user's values" % n, **out)
-    if p.get("parts") and "init" in p["parts"]:
+    if "set_initial:ensures:start[" in p.get("obligation", "") or (p.get("parts") and list(p["parts"]) == ["init"]) or p.get("force") == "init":
         from contracts.oracle import expected_initial
         bad = []
         n = 0
